@@ -112,6 +112,7 @@ class PartitionLog(object):
         if off < self.start or off > self.next:
             return ("oor",)
         data, exp = b"", []
+        self.last_partial = None        # size of the unit served only in part (cut by max_bytes), if any
         self.last_spans = []            # (start byte, end byte, offsets) of the complete units served
         for u in self.units:
             if u.entries[-1][0] < off or u.entries[-1][0] < self.start:
@@ -122,6 +123,7 @@ class PartitionLog(object):
                 exp += [o for (o, k, v) in u.entries]
             else:
                 data += u.data[:max_bytes - len(data)]
+                self.last_partial = len(u.data)
                 break
         # the real codec: nothing decoded and a partial message (>= 12 bytes? any partial) => ConsumerFetchSizeTooSmall
         return ("ok", data, exp, (not exp) and len(data) > 0)
@@ -266,6 +268,7 @@ class Env(object):
     def __init__(self, rnd, log, store, fault=0.12, corrupt=0.0):
         self.rnd, self.log, self.store, self.fault, self.corrupt = rnd, log, store, fault, corrupt
         self.corrupted = 0             # replies garbled in transit (their decoding raises mid-way: outside the Gallina model)
+        self.small = {}                # fetch offset -> size of the message that did not fit the buffer of that request
         self.proc_cancel = 0.0         # probability that a failing processor Deferred fails with CancelledError (its own timeout)
         self.lost_commits = 0.0        # probability that a commit answered by a retriable failure was applied by the coordinator
 
@@ -291,6 +294,8 @@ def reply_event(env, drv):
     r = env.log.fetch(off, mb)
     if r[0] == "oor":
         return (EV_REQ_FAIL, FK_OOR)
+    if r[3]:
+        env.small[off] = env.log.last_partial       # the message at `off` did not fit max_bytes: its real size
     if env.corrupt and rnd.random() < env.corrupt:
         c = env.log.corrupt(rnd, r[1])
         if c is not None:
@@ -619,19 +624,20 @@ def mon_never_idle(events, steps):
     return None
 
 
-def mon_giveup(events, steps, log, maxbuf):
+def mon_giveup(events, steps, small, maxbuf):
     """the consumer gives up with ConsumerFetchSizeTooSmall (start Deferred fails, OUT_START_D false FK_TOOSMALL) only when
-    the next message really does not fit max_buffer_size: otherwise that message and everything after it is never delivered"""
+    the next message really does not fit max_buffer_size: otherwise that message and everything after it is never delivered.
+    small: fetch offset -> size of the message the broker could only serve in part (recorded when it answered)"""
     last = None
     for i, (ev, outs) in enumerate(zip(events, steps)):
         for o in outs:
             if o[0] == OUT_FETCH:
                 last = o[1]
             elif o[0] == OUT_START_D and o[1] == 0 and o[2] == CL.FK_TOOSMALL and last is not None:
-                unit = next((u for u in log.units if u.entries[-1][0] >= last and u.entries[-1][0] >= log.start), None)
-                if unit is not None and (maxbuf == -1 or len(unit.data) <= maxbuf):
+                size = small.get(last)
+                if size is not None and (maxbuf == -1 or size <= maxbuf):
                     return ("step %d: the consumer gave up with ConsumerFetchSizeTooSmall at offset %d although the message there (%d bytes) "
-                            "fits max_buffer_size %s" % (i, last, len(unit.data), "None" if maxbuf == -1 else maxbuf))
+                            "fits max_buffer_size %s" % (i, last, size, "None" if maxbuf == -1 else maxbuf))
     return None
 
 
